@@ -184,6 +184,7 @@ type world struct {
 	net   *fakeNet
 	amb   didnuts.Ambassador
 	mgr   *didsubject.SqlManager
+	r     *runner
 	obs   *didsubject.SqlManager // same database through the engine's own (ungated) handle: observations of the driver
 	preVMs map[string]bool
 	res   didsubject.Resolver
